@@ -19,7 +19,8 @@ EXTENDS Integers, Sequences, FiniteSets, TLC, VerifIO
 
 CONSTANTS Ids,       \* identities = keys; "P" is the advertisement's provider
           Signers,   \* who may sign the advertisement (provider or a separate publisher)
-          MaxEps, FIXED, EXPORT
+          MaxEps, FIXED, EXPORT,
+          SLIM       \* TRUE: only lists of exactly MaxEps extended providers on one fixed ad body (the pairs, cheaply)
 Prov == "P"
 Other == "Z"          \* an identity that never appears honestly (attacker / replacement value)
 
@@ -29,11 +30,15 @@ vars == <<shape, signer, epk, mut, stage>>
 (* ---- value space ---- *)
 AddrSeqs == {<<>>, <<"a1">>, <<"a1", "a2">>}
 EpEntries == [id : Ids, addrs : {<<>>, <<"a1">>}, md : {"m1"}]
-EpSeqs == UNION {[1..n -> EpEntries] : n \in 0..MaxEps}
-Shapes == [prev : {"none", "A"}, ents : {"noents", "E1"}, prov : {Prov}, addrs : AddrSeqs, md : {"m1"}, rm : BOOLEAN,
-           hasExt : BOOLEAN, ctx : {"c0", "c1"}, ov : BOOLEAN, eps : EpSeqs]      \* "c0" = empty context ID
-WellShaped(s) == /\ (~s.hasExt => s.eps = <<>> /\ ~s.ov)
-                 /\ ~(s.rm /\ s.hasExt)        \* the library refuses to sign those
+EpSeqs == IF SLIM THEN [1..MaxEps -> [id : Ids, addrs : {<<>>}, md : {"m1"}]] ELSE UNION {[1..n -> EpEntries] : n \in 0..MaxEps}
+Shapes == IF SLIM
+          THEN [prev : {"A"}, ents : {"E1"}, prov : {Prov}, addrs : {<<>>}, md : {"m1"}, rm : BOOLEAN,
+                hasExt : {TRUE}, ctx : {"c1"}, ov : BOOLEAN, eps : EpSeqs \cup {<<>>}]
+          ELSE [prev : {"none", "A"}, ents : {"noents", "E1"}, prov : {Prov}, addrs : AddrSeqs, md : {"m1"}, rm : BOOLEAN,
+                hasExt : BOOLEAN, ctx : {"c0", "c1"}, ov : BOOLEAN, eps : EpSeqs]      \* "c0" = empty context ID
+(* A removal with extended providers: SignWithExtendedProviders refuses to make one, but the advertisement signature does not
+   cover the list, so entries (signed while it was not a removal) can be attached to a removal signed with Sign.               *)
+WellShaped(s) == (~s.hasExt => s.eps = <<>> /\ ~s.ov)
 
 AdPl(ad) == <<"ad", ad.prev, ad.ents, ad.prov, ad.addrs, ad.md, ad.rm>>
 EpPl(ad, p) == <<"ep", ad.prev, ad.ents, ad.prov, ad.ctx, p.id, p.addrs, p.md, ad.ov>>
@@ -86,7 +91,7 @@ Verify(ad) ==
   IF ~Opens(ad.env, "ad") \/ ad.env.pl # AdPl(ad) THEN Reject
   ELSE LET s == ad.env.key IN
        IF ~ad.hasExt THEN Accept(s)
-       ELSE IF ad.rm THEN Reject
+       ELSE IF ad.rm /\ Len(ad.eps) > 0 THEN Reject        \* no entry of a removal can be verified
        ELSE IF \E i \in 1..Len(ad.eps) :
                   \/ ~Opens(ad.eps[i].env, "ep")
                   \/ ad.eps[i].env.pl # EpPl(ad, ad.eps[i])
@@ -96,7 +101,7 @@ Verify(ad) ==
        ELSE Accept(s)
 
 (* ---- the property ---- *)
-Honest == /\ mut.k = "none"
+Honest == /\ mut.k = "none" /\ ~(shape.rm /\ Len(shape.eps) > 0)
           /\ (Len(shape.eps) > 0 => \E i \in 1..Len(shape.eps) : shape.eps[i].id = shape.prov)
           /\ \A i \in 1..Len(shape.eps) : epk[i] = Proper(shape, signer, i)
 Out == IF Honest THEN Accept(signer) ELSE Reject
@@ -104,7 +109,7 @@ Out == IF Honest THEN Accept(signer) ELSE Reject
 Init == shape \in {s \in Shapes : WellShaped(s) /\ s.eps = <<>> /\ s.addrs = <<>>} /\ signer \in Signers /\ epk = <<>>
         /\ mut = [k |-> "none", i |-> 0] /\ stage = 0
 PickLists == /\ stage = 0 /\ stage' = 1 /\ UNCHANGED <<signer, mut>>
-             /\ \E a \in AddrSeqs, e \in EpSeqs :
+             /\ \E a \in (IF SLIM THEN {<<>>} ELSE AddrSeqs), e \in EpSeqs :
                   /\ (shape.hasExt \/ e = <<>>)
                   /\ shape' = [shape EXCEPT !.addrs = a, !.eps = e]
                   /\ epk' \in [1..Len(e) -> Ids \cup {Other}]
